@@ -204,6 +204,9 @@ func runOptCase(o *Oracle, d json.RawMessage, oc *Outcome) {
 			oc.Fail("spec", "optimum", entry, "reported cost %d, true minimum is %d", cost, best)
 		}
 	}
+	// the constraints go through ParsePBConstrs: its parse-time simplification is tied to its Lean
+	// mirror here too (theorem parsePBConstrs_equiv)
+	frontEndDiff(o, oc, &ConstrCase{Front: "pb", Constrs: c.Constrs})
 	// entry point 1: Optimal
 	s1 := solver.New(c.problem())
 	s1.CuttingPlanes = c.CP
